@@ -101,6 +101,7 @@ def run(ctx):
     for j_ in range(3):
         ident(ctx, "C12.unit-axis", f"frame column {j_}", sum((lift(H[r, j_]) * lift(H[r, j_]) for r in range(3)), ZERO), ONE, loc)
     ctx.count("havoc_symbols", sum(int(np.size(h[1])) for h in I.havocs))
+    frame_construction(ctx, I, M, H, comp, loc)
     Tn = comp("voigt_to_elastic_tensor", M.copy())
     un = alg.sym("<uninit>")
     keys = ["percent_triclinic", "percent_monoclinic", "percent_orthorhombic", "percent_tetragonal", "percent_hexagonal"]
@@ -133,3 +134,78 @@ def run(ctx):
     ctx.floor("C12.selection", 8)
     ctx.floor("C12.moduli", 2)
     ctx.sample({"bulk_modulus": short(alg.unfold_all(lift(out["bulk_modulus"][0])), 200)})
+
+
+def frame_construction(ctx, I, M, H, comp, loc):
+    """The symmetry frame before permutation: column i is the normalised mean of the i-th eigenvector of the dilatational contraction
+    d_ij = C_ijkk and the (sign-matched) eigenvector of the deviatoric contraction v_ij = C_ikjk that is nearest to it."""
+    from ..values import Opaque
+    ctx.rule("C12.frame", "frame column i == normalise((e_i(d) + s·e_j*(v))/2), with d = C_ijkk and v = C_ikjk the two contractions, j* the v-eigenvector at the smallest "
+                          "bidirectional angle to e_i(d) (first wins ties), s the sign of their dot product; the column looked up is the one the search selected")
+    hv = [h for h in I.havocs if len(h) > 4 and h[2].startswith("src/pydrex/diagnostics.py")]
+    if len(hv) != 3:
+        ctx.ob("C12.frame", "three data-dependent eigenvector look-ups", False,
+               f"{len(hv)} data-dependent look-up(s) into the eigenvector matrices: the averaged eigenvector is no longer the one selected by the nearest-axis search", loc)
+        return
+    # published contractions (Browaeys & Chevrot 2004, eq. 3.4/3.5) in Voigt components
+    C = M
+    dref = [[C[0, 0] + C[0, 1] + C[0, 2], C[0, 5] + C[1, 5] + C[2, 5], C[0, 4] + C[1, 4] + C[2, 4]],
+            [None, C[0, 1] + C[1, 1] + C[1, 2], C[0, 3] + C[1, 3] + C[2, 3]],
+            [None, None, C[0, 2] + C[1, 2] + C[2, 2]]]
+    vref = [[C[0, 0] + C[5, 5] + C[4, 4], C[0, 5] + C[1, 5] + C[3, 4], C[0, 4] + C[2, 4] + C[3, 5]],
+            [None, C[5, 5] + C[1, 1] + C[3, 3], C[1, 3] + C[2, 3] + C[4, 5]],
+            [None, None, C[4, 4] + C[3, 3] + C[2, 2]]]
+
+    def tri_of(mat):
+        a = lift(mat[0, 0])
+        if not a.is_monomial():
+            return None
+        ((m_, c_),) = a.t.items()
+        if c_ != 1 or len(m_) != 1 or m_[0][0].kind != "fn:eigh.vec":
+            return None
+        return m_[0][0].args[0]
+
+    def check_tri(name, tri, ref):
+        if tri is None or len(tri) != 6:
+            ctx.ob("C12.frame", f"{name} is an eigenvector matrix of a symmetric 3x3 contraction", False, f"{tri!r}"[:120], loc)
+            return
+        want = [ref[j][i] for i in range(3) for j in range(i + 1)]   # lower triangle, row-major: (i, j<=i) == upper (j, i)
+        for k_, (g, w) in enumerate(zip(tri, want)):
+            ident(ctx, "C12.frame", f"{name}: contraction entry {k_}", alg.unfold_all(lift(g)), lift(w), loc)
+    V = hv[0][3]
+    check_tri("v_ij (deviatoric) eigenvectors looked up", tri_of(V), vref)
+    dil, dev = comp("voigt_decompose", comp("upper_tri_to_symmetric", M.copy()))
+    D = I.np.np_eigh(dil)[1]
+    check_tri("d_ij (dilatational) eigenvectors", tri_of(D), dref)
+    for i in range(3):
+        k_, hsyms, hloc, base, idx = hv[i]
+        src = idx[1].src if isinstance(idx, tuple) and len(idx) == 2 and isinstance(idx[1], Opaque) and idx[0] == slice(None) else None
+        if src is None or not all(a is b or lift(a) == lift(b) for a, b in zip(base.flat, V.flat)):
+            ctx.ob("C12.frame", f"column {i}: look-up shape", False, "the data-dependent look-up is not a column of the v_ij eigenvector matrix", hloc)
+            continue
+        di = D[:, i]
+
+        def nearest(op):
+            angle = lift(10)
+            index = ZERO
+            for j in range(3):
+                vj = V[:, j]
+                dot = sum((lift(a) * lift(b) for a, b in zip(di, vj)), ZERO)
+                ang = lift(I.cut(call_public(ctx, I, "pydrex.diagnostics.smallest_angle", di.copy(), vj.copy())))
+                g = Guard("cmp", op, ang, angle)
+                signed = sel(Guard("cmp", "NotEq", dot, ZERO), dot * alg.Abs(dot).inv() * j, lift(j))
+                index = sel(g, signed, index)
+                angle = sel(g, ang, angle)
+            return index
+        index = nearest("Lt")
+        if lift(src) != alg.Abs(index):
+            # exact ties between two angles lie outside the property's quantifier (separated eigenvalues): either tie-break is accepted
+            alt = nearest("LtE")
+            if lift(src) == alg.Abs(alt):
+                index = alt
+        ident(ctx, "C12.frame", f"column {i}: index of the eigenvector looked up", lift(src), alg.Abs(index), hloc)
+        raw = [(lift(di[r]) + index * lift(hsyms[r])) / 2 for r in range(3)]
+        nrm = Sqrt(sum((x * x for x in raw), ZERO))
+        for r in range(3):
+            ident(ctx, "C12.frame", f"column {i}, row {r}", H[r, i], raw[r] / nrm, loc)
+    ctx.floor("C12.frame", 20)
